@@ -56,7 +56,8 @@ PUBLIC = ["start", "tick", "record_error", "heartbeat", "check_timeouts", "renew
 FIXED = {"tick": ["nat"], "renew": ["onat", "bool"], "trigger_apoptosis": ["str"]}
 # read-only accessors translated as pure helpers (`Tr.is_active cfg s evs : State × List Ev × Bool`); when one leaves the subset
 # it is simply not emitted and its agreement theorem does not elaborate (fail closed)
-ACCESSORS = ["is_active", "is_operational"]
+ACCESSORS = ["is_active", "is_operational", "get_age"]
+ACCESSOR_T = {"is_active": "bool", "is_operational": "bool", "get_age": "odur"}
 
 FIELDS = {
     "_phase": ("phase", "phase"), "_telomere_length": ("length", "int"), "_error_count": ("errors", "nat"),
@@ -933,8 +934,8 @@ def render(src: str, mod=None) -> tuple[str, dict]:
     for m in ACCESSORS:
         try:
             d_ = tr.info(m)
-            if not d_["pure"] or d_["params"] or d_["rtype"] != "bool":
-                tr.done[m] = {"error": "accessor is not a pure parameterless predicate", "own": True}
+            if not d_["pure"] or d_["params"] or d_["rtype"] != ACCESSOR_T[m]:
+                tr.done[m] = {"error": f"accessor is not a pure parameterless function returning {ACCESSOR_T[m]}", "own": True}
         except Unsupported as e:
             info["unsupported"][m] = str(e)
         except RecursionError:
